@@ -10,7 +10,10 @@
       1  the pending loop (no recover) dies on a group that overruns the
          block's transaction slice (model: [Crashed W_GROUP] at an [ETick]);
       2  fatal out-of-memory in addLtBlock: Header.TxCount sizes three
-         allocations (model: [Crashed 0] at an [ERecvLt]). *)
+         allocations (model: [Crashed 0] at an [ERecvLt]);
+      3  disableValidation: the pending loop dies on the nil validator right
+         after handing a completed block over (model: [Crashed W_NILVAL] at an
+         [ETick]). *)
 From Coq Require Import List ZArith NArith Bool String.
 From C33 Require Import Lib.Harness C33.Model.
 Import ListNotations.
@@ -59,7 +62,7 @@ Definition obs_agree (st : state) (e : list eff) (o : obs) : bool :=
 
 Definition kf_of (ev : event) (why : N) : N :=
   match ev with
-  | ETick _ => if N.eqb why W_GROUP then 1%N else 0%N
+  | ETick _ => if N.eqb why W_GROUP then 1%N else if N.eqb why W_NILVAL then 3%N else 0%N
   | ERecvLt _ _ _ _ => if N.eqb why 0%N then 2%N else 0%N
   | _ => 0%N
   end.
